@@ -173,3 +173,31 @@ pub fn op_strategy(n_peers: u8, mix: Mix) -> BoxedStrategy<Op> {
     }
     proptest::strategy::Union::new_weighted(all).boxed()
 }
+
+/// Op lists built from fragments: single ops, or short attack sequences aimed at one (x, z) pair
+/// (probe -> forged handshake -> forged message), so that the interesting multi-step shapes are
+/// produced by construction.
+pub fn ops_strategy(n_peers: u8, mix: Mix, max_fragments: usize) -> BoxedStrategy<Vec<Op>> {
+    let single = op_strategy(n_peers, mix).prop_map(|o| vec![o]).boxed();
+    let attack = (xsel(), 0u8..3, forged_handshake(), proptest::option::of(prop_oneof![Just(ForgedBody::Ping), Just(ForgedBody::Talk)]), proptest::collection::vec(op_strategy(n_peers, Mix::Faulty), 0..3))
+        .prop_map(|(x, z, fh, follow, between)| {
+            let mut v = vec![Op::Probe { x, z }];
+            v.extend(between);
+            if let Op::ForgedHandshake { signer, eph, rec, body, .. } = fh {
+                v.push(Op::ForgedHandshake { x, z, signer, eph, rec, body });
+            }
+            if let Some(body) = follow {
+                v.push(Op::ForgedMessage { x, z, body });
+            }
+            v
+        })
+        .boxed();
+    let frag = match mix {
+        Mix::Identity => prop_oneof![3 => single, 2 => attack].boxed(),
+        Mix::Exemptions => prop_oneof![6 => single, 1 => attack].boxed(),
+        _ => single,
+    };
+    proptest::collection::vec(frag, 1..max_fragments)
+        .prop_map(|v| v.into_iter().flatten().collect())
+        .boxed()
+}
